@@ -1742,7 +1742,7 @@ fn main() {
 	let n_extra = if san { 0 } else { run.tier.pick(600usize, 8000usize) };
 	let (specs, core) = gen_specs(run.seed, n_extra, san);
 	let deadline = run.tier.pick(45.0f64, 430.0f64);
-	let hard_deadline = run.tier.pick(75.0f64, 640.0f64);
+	let hard_deadline = run.tier.pick(300.0f64, 1200.0f64);
 
 	// validation is serialised by grin's process-global secp mutex: shard over worker processes
 	if let Some((k, n)) = run.worker_shard() {
